@@ -12,6 +12,7 @@ CONSTANTS Comp = "multi"
   NBuf = 0
   Gaps <- G_6_11
   Strict = FALSE
+  Busy = FALSE
   D = 80
 INIT Init
 NEXT Next
